@@ -42,7 +42,8 @@ def run(tier, seed):
             bad.append(dict(failed="after a step, last_velocity / last_position hold the values from before the step (they define the midpoint generator)", case={k: m[k] for k in ("cls", "mass", "x", "v", "dt")})); break
     f2, e2 = run_case_check("C07verlet", PRELUDE, "verletcase", "chk_verlet", vc, per_file=400)
     # (2) convergence order at a fixed final time, smooth models, both integrators, coherent start
-    setups = [("dual", [-4.0], [12.0], 640.0, (8.0, 4.0, 2.0), 0.125, "adiabatic"), ("dual", [-4.0], [12.0], 320.0, (2.0, 1.0, 0.5), 0.0625, "diabatic")] \
+    setups = [("dual", [-4.0], [12.0], 640.0, (8.0, 4.0, 2.0), 0.125, "adiabatic"), ("dual", [-4.0], [12.0], 320.0, (2.0, 1.0, 0.5), 0.0625, "diabatic"),
+              ("simple", [-2.0], [10.0], 240.0, (2.4, 1.2, 0.6), 0.075, "adiabatic")] \
         + ([] if tier == "quick" else [("super", [-5.0], [8.0], 960.0, (8.0, 4.0, 2.0), 0.125, "adiabatic"), ("super", [-5.0], [8.0], 480.0, (2.0, 1.0, 0.5), 0.0625, "diabatic"),
                                        ("modelx", [-9.0], [10.0], 1200.0, (10.0, 5.0, 2.5), 0.15625, "adiabatic")])
     for mname, x0, p0, T, dts, dtref, rep in setups:
